@@ -227,14 +227,14 @@ func valuePool() []Val {
 	tz := time.FixedZone("", 3*3600)
 	p := []Val{
 		vNull(),
-		vInt(0), vInt(1), vInt(-1), vInt(2), vInt(3), vInt(7), vInt(-5), vInt(63), vInt(64), vInt(1 << 31), vInt(1<<53 + 1), vInt(maxInt), vInt(maxInt - 1), vInt(minInt),
-		vLong(0), vLong(1), vLong(-1), vLong(5), vLong(11), vLong(-13), vLong(1000), vLong(1 << 31), vLong(1<<53 + 1), vLong(maxInt), vLong(minInt), vLong(86400),
+		vInt(0), vInt(1), vInt(-1), vInt(2), vInt(3), vInt(7), vInt(-5), vInt(63), vInt(64), vInt(1 << 31), vInt(1 << 32), vInt(1<<32 + 1), vInt(1<<53 + 1), vInt(maxInt), vInt(maxInt - 1), vInt(minInt),
+		vLong(0), vLong(1), vLong(-1), vLong(5), vLong(11), vLong(-13), vLong(1000), vLong(1 << 31), vLong(1<<32 + 2), vLong(1<<53 + 1), vLong(maxInt), vLong(minInt), vLong(86400),
 		vFloat(0), vFloat(float32(math.Copysign(0, -1))), vFloat(1), vFloat(-1.5), vFloat(0.1), vFloat(2.5), vFloat(float32(math.Inf(1))), vFloat(float32(math.Inf(-1))), vFloat(float32(math.NaN())), vFloat(math.MaxFloat32), vFloat(math.SmallestNonzeroFloat32), vFloat(16777217),
 		vDouble(0), vDouble(math.Copysign(0, -1)), vDouble(1), vDouble(-1), vDouble(0.5), vDouble(0.1), vDouble(2), vDouble(3), vDouble(-2.5), vDouble(1e10), vDouble(1e300), vDouble(math.Inf(1)), vDouble(math.Inf(-1)), vDouble(math.NaN()), vDouble(math.MaxFloat64), vDouble(math.SmallestNonzeroFloat64), vDouble(9007199254740993), vDouble(0.49999999999999994), vDouble(-0.49999999999999994), vDouble(4503599627370497), vDouble(-2.5),
-		vStr(""), vStr("a"), vStr("A"), vStr("b"), vStr("abc"), vStr("10"), vStr("-3"), vStr("2.5"), vStr(" 1"), vStr("true"), vStr("é"), vStr("ш😀"), vStr("null"), vStr("1e3"), vStr("9223372036854775807"), vStr("010"), vStr("-017"), vStr("0x10"), vStr("2024-01-02T02:00:00+14:00"),
+		vStr(""), vStr("a"), vStr("A"), vStr("b"), vStr("abc"), vStr("10"), vStr("-3"), vStr("2.5"), vStr(" 1"), vStr("true"), vStr("é"), vStr("ш😀"), vStr("null"), vStr("1e3"), vStr("9223372036854775807"), vStr("-0"), vStr("010"), vStr("-017"), vStr("0x10"), vStr("2024-01-02T02:00:00+14:00"),
 		vBool(true), vBool(false),
 		vSpan(0), vSpan(time.Millisecond), vSpan(-time.Hour), vSpan(1500 * time.Microsecond), vSpan(90 * time.Second), vSpan(math.MaxInt64), vSpan(math.MinInt64),
-		vTime(t0), vTime(t1975), vTime(t1975.In(tz)), vTime(time.Date(2262, 1, 1, 0, 0, 0, 0, time.UTC)), vTime(time.Date(2020, 2, 29, 23, 59, 59, 500, time.UTC)), vTime(time.Time{}), vTime(time.Date(2024, 1, 2, 2, 0, 0, 0, time.FixedZone("", 14*3600))), vTime(time.Date(2023, 12, 31, 23, 30, 0, 0, time.FixedZone("", -11*3600))),
+		vTime(t0), vTime(t1975), vTime(t1975.In(tz)), vTime(time.Date(2262, 1, 1, 0, 0, 0, 0, time.UTC)), vTime(time.Date(2020, 2, 29, 23, 59, 59, 500, time.UTC)), vTime(time.Time{}), vTime(time.Date(10000, 1, 1, 0, 0, 0, 0, time.UTC)), vTime(time.Date(-1, 6, 1, 0, 0, 0, 0, time.UTC)), vTime(time.Date(2020, 2, 29, 23, 59, 59, 900, time.UTC)), vTime(time.Date(2024, 1, 2, 2, 0, 0, 0, time.FixedZone("", 14*3600))), vTime(time.Date(2023, 12, 31, 23, 30, 0, 0, time.FixedZone("", -11*3600))),
 		vArr(), vArr(vInt(1), vInt(2), vInt(3)), vArr(vStr("a"), vNull(), vDouble(2)), vArr(vArr(vInt(1)), vArr()), vArr(vInt(1), vStr("x")), vArr(vLong(5), vBool(true)),
 		vObj(0), vObj(1),
 	}
